@@ -17,6 +17,8 @@
 //	spec/net/Exchanges.tla    several RPC exchanges on one connection with the per-exchange preambles of each protocol
 //	                          (alignment, order, nothing left behind); exchanges.go carries every conversation out on one
 //	                          real RHP2 session / RHP3 stream / RHP4 stream / gateway stream.
+//	spec/net/Calls.tla        the entry points that carry their own read limit (RHP2 Transport.Call, RHP3 Stream.Call): every
+//	                          response up to the documented limit is delivered, larger ones refused; calls.go performs real Calls.
 //	spec/net/Cuts.tla         a frame cut after c bytes, then the end of the connection: never delivered, session closed,
 //	                          whether the reader's full read got nothing (io.EOF) or a part; cuts.go cuts real frames at
 //	                          every offset on every read path and feeds every proper prefix of a message to every reader.
@@ -413,7 +415,7 @@ func main() {
 		phases[name] = float64(time.Since(tPhase).Milliseconds()) / 1000
 		tPhase = time.Now()
 	}
-	c.Rule("Sessions: TLC enumerates every conversation of Session.tla (length ≤ MaxMsgs, frame kinds object/error response, ≤ 2 faults out of lenup/lendn/lenhi/nonce/body/pad/tag/trunc/ext on distinct frames) with the demanded outcome; each replayed case = one schedule on one real RHP2 transport pair in one mode (requests renter→host, responses host→renter, raw responses + VerifyTag); non-trivial = at least one fault, or ≥ 2 frames delivered. Size sweep: TLC (FrameSizes.tla) walks every encoded object length within W bytes of a boundary of the RHP2 framing rules (pad / do not pad; at / above the floor of the reader's limit) and per length the caller's limits on both sides of the declared size; one evaluation = one real object of exactly that length moved over a real transport pair in one mode (request, response, raw response), compared with the demanded wire size, verdict, identity and bytes consumed; distinct = distinct (mode, length, limit); repeats in other orders are not counted as distinct. Exchanges: TLC (Exchanges.tla) enumerates every conversation of ≤ 3 exchanges on one connection (request object or not; 1-2 responses, objects or error responses; the per-exchange preambles of the protocol) per protocol; one replayed conversation = all of it on ONE real RHP2 session / RHP3 stream / RHP4 stream / gateway stream; evaluations = exchanges completed; distinct = conversations. Cuts: TLC (Cuts.tla) walks every cut point of a padded RHP2 frame and the boundary set of a larger one; one evaluation = one real frame cut at that offset on one read path (ReadID, ReadRequest, ReadResponse, RawResponse) followed by the end of the connection, judged on delivery and on the session being closed; plus every proper prefix of one message of every wire type through its real reader (one evaluation each, one distinct per type). Receiver reuse: TLC (Reuse.tla) enumerates every sequence of data lengths (≤ MaxSteps messages) for one reused and for fresh receivers; one evaluation = one real response (RHP2 RPCReadResponse through ReadResponse and through RawResponse; RHP3 ExecuteProgram response / request) read on a real session into that receiver and compared; distinct = (mode, receiver, sequence). Dirty receivers: every DIRTY case (held zero/one/few/many elements × arriving zero/one/few/many; optional set/unset) × every registered wire type of gateway/RHP2/RHP3/RHP4: one evaluation = one real object decoded by the real decoder into a receiver holding another real object, compared with the bytes sent; non-trivial = all but (zero, zero). Handshake: every (genesis, unique id)² × in-flight rewrite of version/genesis/unique id; non-trivial = all. Framing: one line = one real object of a stated shape written by the real writer and read by the real reader (or one never-ending stream, or one error response); non-trivial = distinct (object, shape, limit) lines whose message is not empty.")
+	c.Rule("Sessions: TLC enumerates every conversation of Session.tla (length ≤ MaxMsgs, frame kinds object/error response, ≤ 2 faults out of lenup/lendn/lenhi/nonce/body/pad/tag/trunc/ext on distinct frames) with the demanded outcome; each replayed case = one schedule on one real RHP2 transport pair in one mode (requests renter→host, responses host→renter, raw responses + VerifyTag); non-trivial = at least one fault, or ≥ 2 frames delivered. Size sweep: TLC (FrameSizes.tla) walks every encoded object length within W bytes of a boundary of the RHP2 framing rules (pad / do not pad; at / above the floor of the reader's limit) and per length the caller's limits on both sides of the declared size; one evaluation = one real object of exactly that length moved over a real transport pair in one mode (request, response, raw response), compared with the demanded wire size, verdict, identity and bytes consumed; distinct = distinct (mode, length, limit); repeats in other orders are not counted as distinct. Exchanges: TLC (Exchanges.tla) enumerates every conversation of ≤ 3 exchanges on one connection (request object or not; 1-2 responses, objects or error responses; the per-exchange preambles of the protocol) per protocol; one replayed conversation = all of it on ONE real RHP2 session / RHP3 stream / RHP4 stream / gateway stream; evaluations = exchanges completed; distinct = conversations. Cuts: TLC (Cuts.tla) walks every cut point of a padded RHP2 frame and the boundary set of a larger one; one evaluation = one real frame cut at that offset on one read path (ReadID, ReadRequest, ReadResponse, RawResponse) followed by the end of the connection, judged on delivery and on the session being closed; plus every proper prefix of one message of every wire type through its real reader (one evaluation each, one distinct per type). Calls: TLC (Calls.tla) walks the response sizes in steps up to, and byte by byte around, the documented limit of RHP2 Transport.Call and RHP3 Stream.Call; one evaluation = one real Call between real endpoints answered with a real response of exactly that size. Receiver reuse: TLC (Reuse.tla) enumerates every sequence of data lengths (≤ MaxSteps messages) for one reused and for fresh receivers; one evaluation = one real response (RHP2 RPCReadResponse through ReadResponse and through RawResponse; RHP3 ExecuteProgram response / request) read on a real session into that receiver and compared; distinct = (mode, receiver, sequence). Dirty receivers: every DIRTY case (held zero/one/few/many elements × arriving zero/one/few/many; optional set/unset; per-position variants; and, for every settable field of every type found by reflection, the zero / sentinel value arriving into a receiver holding a non-zero value and vice versa) × every registered wire type of gateway/RHP2/RHP3/RHP4: one evaluation = one real object decoded by the real decoder into a receiver holding another real object, compared with the bytes sent; non-trivial = all but (zero, zero). Handshake: every (genesis, unique id)² × in-flight rewrite of version/genesis/unique id; non-trivial = all. Framing: one line = one real object of a stated shape written by the real writer and read by the real reader (or one never-ending stream, or one error response); non-trivial = distinct (object, shape, limit) lines whose message is not empty.")
 	c.Assume("in-memory net.Pipe pairs with a byte-rewriting proxy stand for the network; deadlines only classify a starved read as 'not delivered'")
 	c.Assume("authentication inside go.sia.tech/mux (gateway, RHP3) is not modelled: there only end-to-end delivery and prefix-safety under a flipped bit are checked")
 	c.Assume("gateway objects have no exported encoder: their wire size is mirrored from the exported encoders of the field types; acceptance is observed on the real stream reader")
@@ -442,6 +444,9 @@ func main() {
 	wgSizes.Add(2)
 	go func() { defer wgSizes.Done(); cutCases, cutStates = loadCuts(c) }()
 	go func() { defer wgSizes.Done(); exchCases, exchStates = loadExchanges(c) }()
+	var callCases map[string]callCase
+	wgSizes.Add(1)
+	go func() { defer wgSizes.Done(); callCases = loadCalls(c) }()
 	fm := c.MustTLC(vlib.TLCOpts{SpecDirs: []string{"net"}, Module: "Framing", Config: "Framing.cfg", Workers: 8})
 	c.Cov("framing_model_states", fm.Distinct)
 	sessCfgs := []string{"Session3.cfg"} // ≤ 3 frames, ≤ 2 faults
@@ -597,6 +602,8 @@ func main() {
 	// receiver reuse (Reuse.tla): sequences into one receiver over real sessions; every wire type into a dirty receiver
 	ru := runReuse(c, reuseCases, r)
 	dt := runDirty(c, dirtyCases, r)
+	st := runScalars(c, dirtyCases, r)
+	dt.evals, dt.distinct = dt.evals+st.evals, dt.distinct+st.distinct
 	selftestReuse(c)
 	phase("receiver_reuse")
 	// several exchanges on one connection (Exchanges.tla); frames cut in transit (Cuts.tla)
@@ -605,6 +612,9 @@ func main() {
 	ct := runCuts(c, cutCases, r)
 	selftestCuts(c)
 	phase("cut_frames")
+	// the entry points with their own read limit (Calls.tla)
+	kt := runCalls(c, callCases, r)
+	phase("calls_with_own_limit")
 
 	// handshakes
 	hkeys := make([]string, 0, len(hss))
@@ -726,7 +736,7 @@ func main() {
 	}
 	parallel(8, cjobs)
 	wgSlow.Wait()
-	c.Traces(evals + sw.sessions + ru.sessions + xt.sessions + ct.sessions)
+	c.Traces(evals + sw.sessions + ru.sessions + xt.sessions + ct.sessions + kt.sessions)
 	phase("handshakes_keyexchange_conversations")
 
 	// vacuity guards: sessions
@@ -780,7 +790,7 @@ func main() {
 		b, _ := json.Marshal(l)
 		distinct[string(b)] = true
 	}
-	c.Count(evals+sw.evals+ru.evals+dt.evals+xt.evals+ct.evals+int64(len(rec.lines)), nontriv+sw.distinct+ru.distinct+dt.distinct+xt.distinct+ct.distinct+int64(len(distinct)))
+	c.Count(evals+sw.evals+ru.evals+dt.evals+xt.evals+ct.evals+kt.evals+int64(len(rec.lines)), nontriv+sw.distinct+ru.distinct+dt.distinct+xt.distinct+ct.distinct+kt.distinct+int64(len(distinct)))
 	objs := make([]string, 0, len(rec.objs))
 	perFam := map[string]int{}
 	for o := range rec.objs {
@@ -909,6 +919,18 @@ func replay(c *vlib.Ctx) {
 			rc.Obs = o
 			c.Violation(key, what, rc)
 		}
+	case "call":
+		var run callRun
+		json.Unmarshal(f.Case, &run)
+		run.Obs = nil
+		o, _ := runCallCase(c, run, func() *rhp3Pair {
+			p, err := rhp3Open(dirPlan{}, dirPlan{}, 40*time.Second)
+			if err != nil {
+				c.Fatal("rhp3: %v", err)
+			}
+			return p
+		})
+		fmt.Printf("replay call %s: observed %+v\n", run.Case.key(), o)
 	case "exchanges":
 		var run exchRun
 		json.Unmarshal(f.Case, &run)
@@ -928,6 +950,16 @@ func replay(c *vlib.Ctx) {
 		runReuseCase(c, run, func(run reuseRun, st reuseStep) {
 			fmt.Printf("replay receiver reuse %s %s: %+v\n", run.Mode, run.Case.key(), st)
 		})
+	case "scalar":
+		var o scalarObs
+		json.Unmarshal(f.Case, &o)
+		for _, cd := range allCodecs() {
+			if cd.fam == o.Fam && cd.name == o.Obj && cd.dir == o.Dir {
+				again := scalarDecode(cd, o.Path, strings.HasPrefix(o.Case, "scalar-zero-"), strings.HasSuffix(o.Case, "-zero"), o.Seed)
+				fmt.Printf("replay single field %s/%s/%s %s %s: %+v\n", o.Fam, o.Obj, o.Dir, o.Field, o.Case, again)
+				judgeScalar(c, again)
+			}
+		}
 	case "dirty":
 		var o dirtyObs
 		json.Unmarshal(f.Case, &o)
